@@ -5,7 +5,7 @@ from .. import framework as fw, pool, gen, witnesses, rt
 
 def build_and_audit(ctx, lean_module=None):
     lean_module = lean_module or ctx.prop
-    ok = fw.regen(ctx) and fw.lake_build(ctx, ["MhlModel", "MhlProps." + lean_module])
+    ok = fw.regen(ctx) and fw.lake_build(ctx, ["MhlModel"] + ["MhlProps." + m for m in fw.modules_for(lean_module)])
     if ok:
         fw.audit(ctx)
         if ctx.thorough:
